@@ -626,6 +626,76 @@ def vrun (vs : List Vol) (evs : List VEv) : List Vol := evs.foldl vstep vs
 /-- `emptyLocation`: a sector can be stored iff some available, writable volume has a free slot -/
 def canWrite (vs : List Vol) : Bool := vs.any fun v => v.available && v.room
 
+/-! ### opening a database = pending migrations ∘ identity -/
+
+inductive CStat where
+  | pending | rejected | active | successful | failed | renewed
+deriving DecidableEq, Repr
+
+/-- a contract row as `recalcContractMetrics` reads it -/
+structure MC where
+  v2 : Bool
+  status : CStat
+  locked : Nat
+  usage : Nat
+deriving DecidableEq, Repr
+
+/-- the stored aggregates: locked collateral, potential revenue, earned revenue -/
+structure Totals where
+  locked : Nat
+  potential : Nat
+  earned : Nat
+deriving DecidableEq, Repr
+
+def Totals.add (a b : Totals) : Totals := ⟨a.locked + b.locked, a.potential + b.potential, a.earned + b.earned⟩
+
+/-- persist/sqlite/recalc.go:136-200: v1 `active` → locked + potential, v1 `successful` → earned;
+v2 `active` → locked + potential, v2 `successful` and `renewed` → earned; every other status counts nothing -/
+def contribOf (c : MC) : Totals :=
+  match c.status with
+  | .active => ⟨c.locked, c.usage, 0⟩
+  | .successful => ⟨0, 0, c.usage⟩
+  | .renewed => if c.v2 then ⟨0, 0, c.usage⟩ else ⟨0, 0, 0⟩
+  | _ => ⟨0, 0, 0⟩
+
+def recompute (cs : List MC) : Totals := cs.foldl (fun t c => t.add (contribOf c)) ⟨0, 0, 0⟩
+
+/-- the same recomputation without the `renewed` clause (to show what the rule excludes) -/
+def recomputeNoRenewed (cs : List MC) : Totals :=
+  (cs.filter (·.status ≠ .renewed)).foldl (fun t c => t.add (contribOf c)) ⟨0, 0, 0⟩
+
+/-- the part of the database the re-runnable migrations touch: contracts, the stored aggregates, the host's
+net address (host name, optional port), the schema version -/
+structure MDb where
+  contracts : List MC
+  totals : Totals
+  host : Nat
+  port : Option Nat
+  version : Nat
+deriving Repr
+
+/-- the migrations that can run again on the current schema (persist/sqlite/migrations.go): 35 trims the port
+from the net address, 36/37/38 are `recalcContractMetrics`, 39 is `CREATE INDEX IF NOT EXISTS` -/
+inductive Mig where
+  | trimPort | recalcMetrics | createIndex
+deriving DecidableEq, Repr
+
+def applyMig (db : MDb) : Mig → MDb
+  | .trimPort => { db with port := none }
+  | .recalcMetrics => { db with totals := recompute db.contracts }
+  | .createIndex => db
+
+/-- `migrations[version-1 ..]` for the versions 34 … 39 (target 39) -/
+def migrationsFrom34 : List Mig := [.trimPort, .recalcMetrics, .recalcMetrics, .recalcMetrics, .createIndex]
+
+def pendingOf (version : Nat) : List Mig := migrationsFrom34.drop (version - 34)
+
+/-- `OpenDatabase` → `init` → `upgradeDatabase` (init.go:34-77): run what is pending, set the version -/
+def openDb (db : MDb) : MDb := { (pendingOf db.version).foldl applyMig db with version := 39 }
+
+/-- what the getters show of it -/
+def observeDb (db : MDb) : List MC × Totals × Nat × Option Nat := (db.contracts, db.totals, db.host, db.port)
+
 /-- what each constructor does (read from the code) -/
 structure Ctor where
   name   : String
